@@ -74,14 +74,20 @@ func (c *counter) Inc(v int64) {
 }
 
 func (c *counter) value() int64 {
-	curr := atomic.LoadInt64(&c.curr)
-
-	prev := atomic.LoadInt64(&c.prev)
-	if prev == curr {
-		return 0
+	// Claim the interval (prev, curr] with a compare-and-swap so that two
+	// report passes running at the same time never both deliver it. prev is
+	// read before curr: curr only catches up with later increments, so with
+	// non-negative increments the delta cannot be negative.
+	for {
+		prev := atomic.LoadInt64(&c.prev)
+		curr := atomic.LoadInt64(&c.curr)
+		if prev == curr {
+			return 0
+		}
+		if atomic.CompareAndSwapInt64(&c.prev, prev, curr) {
+			return curr - prev
+		}
 	}
-	atomic.StoreInt64(&c.prev, curr)
-	return curr - prev
 }
 
 func (c *counter) report(name string, tags map[string]string, r StatsReporter) {
